@@ -97,7 +97,7 @@ pub fn run(seed: u64, w: &Work) -> Report {
         "servers with default limit in {0,1,7,1024,65536} x endpoints with override in {none,0,1,100,70000,usize::MAX} x extractors \
          {TypedBody json, TypedBody urlencoded, UntypedBody, StreamingBody, MultipartBody}; body length L in {0, limit-1, limit, limit+1, \
          2*limit, limit+65536, (thorough) 5 MB, random}; framing: content-length in one write / dribbled, chunked with 1-byte chunks, \
-         random chunks, a chunk boundary exactly at the limit, one huge chunk; oracle: L <= limit => 200 and length+hash intact, \
+         random chunks, a chunk boundary exactly at the limit, one huge chunk, a within-limit Content-Length header followed by a chunked over-limit body; oracle: L <= limit => 200 and length+hash intact, \
          L > limit => 4xx, and for every request max(H_BYTES logged by the handler) <= limit; class = (extractor, limit source, \
          L relative to limit, framing)",
     );
@@ -164,7 +164,16 @@ pub fn run(seed: u64, w: &Work) -> Report {
                                     continue;
                                 };
                                 let mut req = Req::new("POST", &path).uid(uid).header("content-type", &ct).body(&body);
-                                let framing: &str = match rng.below(7) {
+                                let framing: &str = match rng.below(8) {
+                                    7 if len > limit => {
+                                        // a Content-Length within the limit FOLLOWED by Transfer-Encoding:
+                                        // chunked (RFC 9112 6.3: the transfer coding decides the length; hyper
+                                        // accepts the request and leaves the header in place): the real body
+                                        // is over the limit
+                                        req = req.header("content-length", &rng.usize(limit + 1).to_string());
+                                        req.chunked = Some((0..4).map(|_| 1 + rng.usize(3000)).collect());
+                                        "content-length-then-chunked"
+                                    }
                                     0 if len <= 3000 => {
                                         req.chunked = Some(vec![1]);
                                         "chunked-1"
@@ -254,7 +263,64 @@ pub fn run(seed: u64, w: &Work) -> Report {
                 rep.merge(r);
                 limits.extend(l);
             }
+            // bodies within the limit that are only PARTLY sent before the client leaves:
+            // "accepted and delivered intact" leaves no room for a handler being given the part
+            let mut truncated: Vec<(u64, &'static str, usize, usize)> = vec![];
+            for k in 0..(per * 4).clamp(40, 400) {
+                let mut rng = Rng::derive(seed, "c11-trunc", default as u64 + if mode_tag == "det" { 0 } else { 7777 }, k as u64);
+                let kind = *rng.pick(&["raw", "stream", "form"]);
+                let (path, limit) = (format!("/{kind}-o70000"), 70_000usize);
+                let len = 2 + rng.usize(4000);
+                let uid = next_uid();
+                let Some((body, ct, _)) = make_body(&mut rng, kind, len, uid) else { continue };
+                let mut req = Req::new("POST", &path).uid(uid).header("content-type", &ct).body(&body);
+                let chunked = rng.chance(1, 3);
+                if chunked {
+                    req.chunked = Some(vec![1 + rng.usize(500)]);
+                }
+                let wire = req.encode();
+                let Some(he) = crate::client::find(&wire, b"\r\n\r\n") else { continue };
+                let stop = if chunked { wire.len().saturating_sub(5) } else { wire.len() - 1 };
+                if stop <= he + 4 {
+                    continue;
+                }
+                let cut = he + 4 + rng.usize(stop - he - 4);
+                let Ok(mut c) = Conn::connect(addr) else { continue };
+                if c.send(&wire[..cut]).is_err() {
+                    continue;
+                }
+                std::thread::sleep(Duration::from_micros(200 + rng.below(2000)));
+                let how = if rng.bool() { "half-close" } else { "close" };
+                rep.eval(format!("{kind}|truncated|{}|{how}|{mode_tag}", if chunked { "chunked" } else { "length" }));
+                if how == "half-close" {
+                    c.shutdown_write();
+                    if let Ok(resp) = c.read_response_within(false, Duration::from_secs(10)) {
+                        if (200..300).contains(&resp.status) {
+                            rep.violate(
+                                format!("C11:{kind}:partial-body-delivered"),
+                                json!({"seed": seed, "server_default": default, "mode": mode_tag, "extractor": kind, "effective_limit": limit,
+                                       "announced_body_len": len, "body_bytes_sent": cut - he - 4, "status": resp.status,
+                                       "body": String::from_utf8_lossy(&resp.body).chars().take(200).collect::<String>()}),
+                            );
+                        }
+                    }
+                }
+                truncated.push((uid, kind, len, cut - he - 4));
+            }
             let _ = srv.close();
+            {
+                let done: std::collections::HashSet<u64> = log.snapshot().iter().filter(|e| e.kind == "H_DONE").map(|e| e.uid).collect();
+                for (uid, kind, len, sent) in &truncated {
+                    if done.contains(uid) {
+                        rep.violate(
+                            format!("C11:{kind}:partial-body-delivered"),
+                            json!({"seed": seed, "server_default": default, "mode": mode_tag, "extractor": kind, "uid": uid, "announced_body_len": len,
+                                   "body_bytes_sent": sent, "observed": "H_DONE: the handler completed with a body the client never finished sending"}),
+                        );
+                    }
+                }
+                rep.count("partly_sent_bodies", truncated.len() as u64);
+            }
             // history: no handler ever observed more bytes than its limit
             let mut maxb: HashMap<u64, i64> = HashMap::new();
             let evs = log.snapshot();
